@@ -326,8 +326,8 @@ func phasePlan(s *spec) plan {
 	pi := float64(s.pi) / float64(time.Millisecond)
 	j := s.jit
 	if s.mode == "upgrading" {
-		sub := s.phase % 4
-		p := plan{hold: s.phase >= 4}
+		sub := s.phase % 5
+		p := plan{hold: s.phase >= 5}
 		pre := ""
 		if p.hold {
 			pre = "held-until-first-ping:"
@@ -348,6 +348,13 @@ func phasePlan(s *spec) plan {
 			p.anchor, p.name = "updone", pre+"client-upgrade-done"
 		case 3:
 			p.anchor, p.name = "flip", pre+"server-switched-transport"
+		case 4:
+			// the probe has been answered (about a millisecond after the websocket request) and the client waits for
+			// its pending poll to be released by the server's next NOOP (100 ms later): the link dies in between
+			p.anchor, p.delay, p.name = "wsconn", ms(10+70*j), "probe-answered-poll-still-pending"
+			if p.hold {
+				p.anchor, p.name = "release", pre+"probe-answered-poll-still-pending"
+			}
 		}
 		return p
 	}
@@ -1122,7 +1129,7 @@ func main() {
 	run := vk.Start("C14", "fault_enumeration")
 	run.Rule("dead-peer trials = (pingInterval, pingTimeout) x transport {polling, websocket, upgraded, upgrading} x black-holed direction {both, c2s, s2c} x placement phase " +
 		"(time anchored: before / just before a ping; event anchored: inside the client's ping callback before the pong leaves, inside the server's pong callback; upgrading: at the ws upgrade request, " +
-		"mid-handshake, at the client's UpgradeDone, at the server's transport switch, each also with the upgrade held back until the first ping), each run against a fresh real server + real client through the fault proxy; " +
+		"mid-handshake, after the probe was answered while the client's last poll is still pending, at the client's UpgradeDone, at the server's transport switch, each also with the upgrade held back until the first ping), each run against a fresh real server + real client through the fault proxy; " +
 		"live-peer trials = (pingInterval, pingTimeout) x transport x traffic {idle, c2s every 0.37 pi, s2c, both 0.37/0.61, locked onto the ping/pong instants, dense server stream (one message per 150 us) around every ping}; live peers whose polling->websocket upgrade is timed so that the first PING is queued on polling at the swap (lead swept 70..130 ms); " +
 		"distinct = kind/transport/direction-or-traffic/pi,pt/phase/outcome class (close reason and on-time/late per side)")
 	run.Assume("a side is 'closed' when its OnClose callback has run (the only public signal); detection latency is measured from the black-hole call to that callback",
@@ -1149,7 +1156,11 @@ func main() {
 	for _, c := range cfgs {
 		for _, mode := range []string{"polling", "websocket", "upgraded", "upgrading"} {
 			for _, dir := range []string{"both", "c2s", "s2c"} {
-				for ph := 0; ph < phases; ph++ {
+				nph := phases
+				if mode == "upgrading" {
+					nph = run.Pick(5, 10) // five placements, thorough: each also with the upgrade held back
+				}
+				for ph := 0; ph < nph; ph++ {
 					specs = append(specs, &spec{kind: "dead", mode: mode, dir: dir, pi: c.pi, pt: c.pt, phase: ph, jit: rnd.Float64()})
 				}
 			}
